@@ -10,7 +10,10 @@ func init() {
 }
 
 // c12Rows draws rows of arbitrary bytes: verifN() = 10*rows + maxlen (+100: all 256 byte values except \n).
+var c12ASCII bool // every byte of the drawn rows is below 0x80
+
 func c12Rows() (rows []string, allBlank bool) {
+	c12ASCII = true
 	nrows := (verifN() / 10) % 10
 	maxlen := verifN() % 10
 	all := verifN() >= 100
@@ -22,6 +25,8 @@ func c12Rows() (rows []string, allBlank bool) {
 			verifAssume(row[j] != '\n')
 			if !all {
 				verifAssume(row[j] < 0x80)
+			} else if row[j] >= 0x80 {
+				c12ASCII = false
 			}
 			if !(row[j] == ' ' || row[j] == '\t' || row[j] == '\r' || row[j] == '\v' || row[j] == '\f') {
 				allBlank = false
@@ -72,7 +77,8 @@ func VerifC12Rows() {
 		verifAssert(err == nil, "C12.empty.nil")
 		verifAssert(len(w.out) == 0 && calls == 0 && vfsTouched() == 0, "C12.empty.nothing")
 	}
-	if err == nil && route <= 1 && !allBlank {
+	// (rows with bytes >= 0x80 may be blank in the library's sense: Unicode white space such as U+00A0, U+0085)
+	if err == nil && route <= 1 && !allBlank && c12ASCII {
 		verifAssert(len(w.out) > 0, "C12.accepted.nonempty")
 	}
 }
